@@ -15,7 +15,7 @@ from ahbicht.content_evaluation.fc_evaluators import text_to_be_evaluated_by_for
 from ahbicht.expressions.ahb_expression_evaluation import evaluate_ahb_expression_tree
 from ahbicht.expressions.ahb_expression_parser import parse_ahb_expression_to_single_requirement_indicator_expressions
 from ahbicht.expressions.condition_expression_parser import extract_categorized_keys, extract_categorized_keys_from_tree, parse_condition_expression_to_tree
-from ahbicht.expressions.expression_resolver import parse_expression_including_unresolved_subexpressions
+from ahbicht.expressions.expression_resolver import expand_packages, expand_time_conditions, parse_expression_including_unresolved_subexpressions
 from ahbicht.expressions.format_constraint_expression_evaluation import format_constraint_evaluation
 from ahbicht.expressions.requirement_constraint_expression_evaluation import requirement_constraint_evaluation
 from ahbicht.json_serialization.concise_condition_key_tree_schema import ConciseConditionKeyTreeSchema
@@ -99,6 +99,29 @@ async def check_tree(ctx, case):
         return
     tree = out[1]
     ctx.count("trees")
+    if case.get("staged"):
+        # the caller inspects the unresolved tree first (keys, a first evaluation that may fail on the unresolved package) and only then expands
+        # THIS tree object: what the library remembered about the tree before must not survive the expansion
+        ctx.count("staged_resolutions")
+        capture(extract_categorized_keys_from_tree, tree)
+        await evaluate_tree(tree, world, ahb=kind != "cond")
+
+        async def expand():
+            E.set_world(world)
+            return expand_time_conditions(await expand_packages(tree))
+
+        exp = await sched.run_under(None, expand)
+        if exp[0] != "ok":
+            if isinstance(exp[1], NotImplementedError):
+                return
+            ctx.violation(f"expansion-raises-{type(exp[1]).__name__}", f"expand_packages / expand_time_conditions on the tree of {s!r} {describe(exp)[:200]}")
+            return
+        tree = exp[1]
+    if ctx.rng.random() < 0.2:
+        # a document the schema rejects, loaded in between (clients do send broken JSON): must not influence later loads
+        ctx.count("rejected_documents_in_between")
+        bad = ctx.rng.choice(['{"type": "and_composition", "children": [{"token": {"value": "1"}, "tree": null}]}', '{"type": "x", "children": [{"tree": {"type": "y", "children": [{"tree": {"type": "z", "children": "oops"}}]}}]}', '{"children": [], "type": "a", "surprise": 1}', '[1, 2]', '{"type": "a", "children": [{"token": null, "tree": {"type": "b", "children": [{"token": {"type": 5, "value": []}}]}}]}'])
+        capture(TreeSchema().loads, bad)
     if ctx.rng.random() < 0.5:
         # the library's other (dump-only) tree schemas are used on equal trees beforehand: serialising through one schema must not
         # influence what another one produces later
@@ -232,6 +255,9 @@ async def run(ctx):
             if rng.random() < 0.5:
                 s = rng.choice(["Muss", "X", "soll", "K"]) + s
             case = {"s": s, "kind": "resolved", "asg": asg, "resolve": rng.random() < 0.6, "replace": rng.random() < 0.6}
+            if rng.random() < 0.5:
+                # parse unresolved, look at the tree, then expand the same object; evaluable if every package is known
+                case.update(resolve=False, replace=False, staged=True, evaluable=True)
         await check_tree(ctx, case)
         if i % 120 == 0:
             ctx.sample({"s": case["s"], "kind": case["kind"]}, cls="tree")
